@@ -1790,3 +1790,90 @@ def c08_repl(R):
     cr = tree.func(REPL, "_check_replaceability")
     R.check("type(old) is not type(new)" in ast.unparse(cr), m, cr, "replacements must have the replaced node's type",
             "_check_replaceability no longer compares the two types")
+
+
+@rule(
+    "C05.leafmeta",
+    props=("C05",),
+    floor=2,
+    family="GRD",
+    desc="outside its fast path, make_like hands a node's variables / symbolic flag over from another node X only under "
+    "the fact that the op the node is rebuilt as is X's own op: the metadata of a leaf symbol belongs to that leaf, not "
+    "to whatever receiver the rebuild started from",
+)
+def c05_leafmeta(R):
+    tree = R.tree
+    m = tree.mod(BASE)
+    ml = util.resolve_locals(_make_like(tree))
+    ps = positional_params(ml)
+    op = ps[1] if len(ps) > 1 else "op"
+    n = 0
+    for st in walk_no_nested(ml):
+        if not (isinstance(st, ast.Assign) and len(st.targets) == 1 and isinstance(st.targets[0], ast.Name) and st.targets[0].id in ("variables", "symbolic")):
+            continue
+        v = st.value
+        if not (isinstance(v, ast.Attribute) and v.attr == st.targets[0].id):
+            continue
+        n += 1
+        src = ast.unparse(v.value)
+        facts = [re.sub(r"\s+", " ", f) for f in guards.holds(st, stop=ml)]
+        ok = any(f in (f"{src}.op == {op}", f"{op} == {src}.op", f"({src}).op == {op}", f"{op} == ({src}).op") for f in facts)
+        R.check(
+            ok,
+            m,
+            st,
+            f"{st.targets[0].id} taken from a node only when the rebuilt op is that node's own",
+            f"Base.make_like sets {st.targets[0].id} = `{norm(v)[:70]}` under {facts[-2:]} with no fact that `{op}` is the op of that "
+            f"node: (Concat(z, 0) | Concat(w, y))[7:0] rebuilds 0 | y from the receiver 0, the simplifier turns it into the symbol "
+            f"y, and the node got the receiver's empty variable set - a BVS reported concrete",
+            construct=f"make_like: {st.targets[0].id} handed over from {norm(v.value)[:40]}",
+        )
+    R.need(n >= 2, f"make_like: only {n} metadata hand-overs found")
+
+
+@rule(
+    "C05.replwidth",
+    props=("C05", "C08"),
+    floor=1,
+    family="GRD",
+    desc="replace_dict substitutes a node from the replacement table only after comparing the two widths (and raising on "
+    "a mismatch): the nodes above are rebuilt with the width they had",
+)
+def c05_replwidth(R):
+    tree = R.tree
+    path = "claripy/algorithm/replace.py"
+    m = tree.mod(path)
+    fn = tree.func_inlined(path, "replace_dict")
+    ps = positional_params(fn)
+    table = ps[1] if len(ps) > 1 else "replacements"
+    n = 0
+    for st in walk_no_nested(fn):
+        if not (isinstance(st, ast.Assign) and len(st.targets) == 1 and isinstance(st.targets[0], ast.Name) and isinstance(st.value, ast.Subscript) and ast.unparse(st.value.value) == table):
+            continue
+        n += 1
+        new = st.targets[0].id
+        key = st.value.slice
+        olds = {x.id for x in ast.walk(key) if isinstance(x, ast.Name)}
+        checked = False
+        for c in walk_no_nested(fn):
+            if isinstance(c, ast.Compare) and len(c.ops) == 1 and isinstance(c.ops[0], (ast.NotEq, ast.Eq)):
+                a, b = c.left, c.comparators[0]
+                widths = [x for x in (a, b) if (isinstance(x, ast.Attribute) and x.attr == "length") or (isinstance(x, ast.Call) and ast.unparse(x.func).split(".")[-1] in ("size", "len"))]
+                names = {y.id for x in widths for y in ast.walk(x) if isinstance(y, ast.Name)}
+                if len(widths) == 2 and new in names and names & olds:
+                    # ... and the mismatch raises
+                    par = getattr(c, "_parent", None)
+                    while par is not None and not isinstance(par, ast.If):
+                        par = getattr(par, "_parent", None)
+                    if par is not None and any(isinstance(x, ast.Raise) for x in ast.walk(par)):
+                        checked = True
+        R.check(
+            checked,
+            m,
+            st,
+            "a substituted node has the width of the node it replaces",
+            f"replace_dict substitutes `{new} = {ast.unparse(st.value)}` without comparing its width with the replaced node's: the "
+            f"parents are rebuilt with their old width, claripy.replace(Concat(x8, y8), x8, z16) reported 16 bits for a value of 24",
+            construct="replace_dict: width of a substituted node",
+        )
+    R.need(n >= 1, "replace_dict no longer reads the replacement table")
